@@ -10,8 +10,19 @@
 #include <unistd.h>
 #include "libconfig.h"
 
+#include <setjmp.h>
 #define MAXT 16
 struct job { int id; int rounds; unsigned seed; char *out; size_t len; };
+
+/* per-thread allocation faults: the next allocation the library requests in THIS thread fails once, the (process-wide)
+ * fatal-error function jumps back into the thread that failed; other threads must be unaffected, also afterwards */
+static __thread int tl_fail_next; static __thread jmp_buf tl_escape; static __thread int tl_armed;
+void *__real_calloc(size_t, size_t); void *__real_malloc(size_t); char *__real_strdup(const char *); void *__real_realloc(void *, size_t);
+void *__wrap_calloc(size_t a, size_t b) { if (tl_fail_next) { tl_fail_next = 0; return NULL; } return __real_calloc(a, b); }
+void *__wrap_malloc(size_t a) { if (tl_fail_next) { tl_fail_next = 0; return NULL; } return __real_malloc(a); }
+void *__wrap_realloc(void *p, size_t a) { if (tl_fail_next) { tl_fail_next = 0; return NULL; } return __real_realloc(p, a); }
+char *__wrap_strdup(const char *s) { if (tl_fail_next) { tl_fail_next = 0; return NULL; } return __real_strdup(s); }
+static void thr_fatal(const char *msg) { (void)msg; if (tl_armed) { tl_armed = 0; longjmp(tl_escape, 1); } abort(); }
 
 static void emit(FILE *t, const config_setting_t *s, int depth)
 {
@@ -65,6 +76,13 @@ static void *work(void *arg)
     config_write(&c, t);
     fprintf(t, "write_file %d\n", config_write_file(&c, fname));
     { config_t d; config_init(&d); fprintf(t, "read_file %d\n", config_read_file(&d, fname)); emit(t, config_root_setting(&d), 0); config_destroy(&d); }
+    /* an allocation failure in this thread, handled by jumping out of the library; then the same again: the handler
+     * still works for this and for every other thread */
+    { int k; for (k = 0; k < 2; k++) {
+        tl_armed = 1;
+        if (setjmp(tl_escape) == 0) { tl_fail_next = 1; a = config_setting_add(config_root_setting(&c), k ? "zz2" : "zz1", CONFIG_TYPE_STRING); tl_fail_next = 0; tl_armed = 0; fprintf(t, "fault %d not-reached %d\n", k, a != NULL); }
+        else fprintf(t, "fault %d recovered\n", k);
+      } }
     config_destroy(&c);
   }
   fclose(t);
@@ -75,6 +93,7 @@ int main(int argc, char **argv)
 {
   char *line = NULL; size_t cap = 0; ssize_t n;
   if (argc > 1 && chdir(argv[1]) != 0) { perror("chdir"); return 2; }
+  config_set_fatal_error_func(thr_fatal);          /* once, before any thread exists */
   while ((n = getline(&line, &cap, stdin)) > 0) {
     int nt, rounds, i, bad = -1, parfirst = 0; unsigned seed; struct job serial[MAXT], par[MAXT]; pthread_t th[MAXT]; size_t total = 0;
     /* a 4th field "1" = run the threads BEFORE the serial reference runs (the very first use of the library is concurrent) */
